@@ -45,6 +45,16 @@ pub fn k_date_add_cal(y: i16, m: i8, d: i8, neg: bool, sy: i64, smo: i64, sw: i6
     let sp = mkspan_cal(neg, sy, smo, sw, sd)?;
     Some(dt.checked_add(sp).ok().map(d3))
 }
+pub fn k_date_add_ym(y: i16, m: i8, d: i8, neg: bool, sy: i64, smo: i64) -> Option<Option<D3>> {
+    let dt = mkdate((y, m, d))?;
+    let sp = mkspan_cal(neg, sy, smo, 0, 0)?;
+    Some(dt.checked_add(sp).ok().map(d3))
+}
+pub fn k_date_add_wd(y: i16, m: i8, d: i8, neg: bool, sw: i64, sd: i64) -> Option<(Option<(D3, i32)>, i32)> {
+    let dt = mkdate((y, m, d))?;
+    let sp = mkspan_cal(neg, 0, 0, sw, sd)?;
+    Some((dt.checked_add(sp).ok().map(|r| (d3(r), f::to_epoch_day(d3(r)))), f::to_epoch_day((y, m, d))))
+}
 pub fn k_date_sub_cal(y: i16, m: i8, d: i8, neg: bool, sy: i64, smo: i64, sw: i64, sd: i64) -> Option<Option<D3>> {
     let dt = mkdate((y, m, d))?;
     let sp = mkspan_cal(neg, sy, smo, sw, sd)?;
